@@ -16,7 +16,7 @@ from __future__ import annotations
 
 from ..model import AnalysisError
 from ..sym import NONE, Term, mentions, show, subterms
-from ..util import (SELF, arg, callee, guards_of, is_call, method_call, paths, returning, short,
+from ..util import (SELF, arg, callee, guards_of, is_call, method_call, paths, prior_assumes, returning, short,
                     where)
 from . import c10
 
@@ -82,7 +82,8 @@ def run(ctx):
     gc = comb.methods['get_cost']
     fwd = comb.methods['forward']
     # R06a
-    full = [p for p in returning(paths(repo, gc))
+    KEEP = ('shapes_dict', 'uniquify_leaf_modules', 'sample_alpha')
+    full = [p for p in returning(paths(repo, gc, keep=KEEP))
             if sum(1 for e in p.events if e.kind == 'loopend') >= 2]
     if not full:
         raise AnalysisError('SuperNetCombiner.get_cost: nested loop path not found')
@@ -101,7 +102,7 @@ def run(ctx):
             # a memoised branch cost: judge the value that was stored under the same index
             if other[0] == 'sub' and other[1][0] == 'attr' and other[1][1] == SELF and \
                     other[2] == i:
-                stored = [e.data[2] for q in returning(paths(repo, gc)) for e in q.events
+                stored = [e.data[2] for q in returning(paths(repo, gc, keep=KEEP)) for e in q.events
                           if e.kind == 'setitem' and e.data[0] == other[1] and e.data[1] == i]
                 if stored:
                     other = max(stored, key=lambda v: len(show(v)))
@@ -205,11 +206,11 @@ def run(ctx):
     sn = repo.cls('SuperNet')
     sc = sn.methods['_get_single_cost']
     seen_comb = seen_fixed = False
-    for p in returning(paths(repo, sc)):
+    for p in returning(paths(repo, sc, keep=('shapes_dict', 'get_cost'))):
         for e in p.calls():
             t = e.data[0]
             mc = method_call(t)
-            g = guards_of(p, e)
+            g = prior_assumes(p, e)
             if mc and mc[1] == 'get_cost' and mc[0][0] == 'sub':
                 seen_comb = True
                 okc = any(is_call(a, 'builtins.isinstance') and v and
